@@ -215,6 +215,25 @@ impl WorkTokenizedBuffer {
         }
     }
 
+    /// Verification seam: applies the per-thread capacity knobs.
+    #[cfg(sas_lexer_verif)]
+    pub(super) fn verif_apply_knobs(&mut self) {
+        let knobs = crate::verif::knobs();
+        crate::verif::apply_vec_cap(&mut self.line_infos, knobs.line_cap);
+        crate::verif::apply_vec_cap(&mut self.token_infos, knobs.token_cap);
+        crate::verif::apply_string_cap(&mut self.string_literals_buffer, knobs.str_lit_cap);
+    }
+
+    /// Verification seam: shrinks all vectors to their length if requested.
+    #[cfg(sas_lexer_verif)]
+    fn verif_maybe_shrink(&mut self) {
+        if crate::verif::take_shrink_request() {
+            self.line_infos.shrink_to_fit();
+            self.token_infos.shrink_to_fit();
+            self.string_literals_buffer.shrink_to_fit();
+        }
+    }
+
     /// Converts the `WorkTokenizedBuffer` into a `TokenizedBuffer`.
     /// This is supposed to be called only when the tokenization is finished.
     #[allow(clippy::cast_possible_truncation)]
@@ -254,6 +273,13 @@ impl WorkTokenizedBuffer {
                 usize::from(byte_offset) <= self.source_len,
                 "Line byte offset out of bounds"
             );
+        }
+        #[cfg(sas_lexer_verif)]
+        {
+            crate::verif::emit(crate::verif::Event::AddLine {
+                count: self.line_count(),
+            });
+            self.verif_maybe_shrink();
         }
         self.line_infos.push(LineInfo { byte_offset, start });
         LineIdx::new(self.line_count() - 1)
@@ -309,6 +335,15 @@ impl WorkTokenizedBuffer {
             self.token_infos.len() != u32::MAX as usize,
             "Token index overflow"
         );
+
+        #[cfg(sas_lexer_verif)]
+        {
+            crate::verif::emit(crate::verif::Event::AddToken {
+                count: self.token_count(),
+                at_capacity: self.token_infos.len() == self.token_infos.capacity(),
+            });
+            self.verif_maybe_shrink();
+        }
 
         #[cfg(rustc_nightly)]
         if let Err(value) = self.token_infos.push_within_capacity(TokenInfo {
@@ -405,6 +440,15 @@ impl WorkTokenizedBuffer {
             "Token index overflow"
         );
 
+        #[cfg(sas_lexer_verif)]
+        {
+            crate::verif::emit(crate::verif::Event::InsertToken {
+                at: at.get(),
+                count: self.token_count(),
+            });
+            self.verif_maybe_shrink();
+        }
+
         self.token_infos.insert(
             at.get() as usize,
             TokenInfo {
@@ -429,6 +473,14 @@ impl WorkTokenizedBuffer {
     pub(super) fn add_string_literal<S: AsRef<str>>(&mut self, literal: S) -> (u32, u32) {
         // SAFETY: This can only be created from lexer, which restricts the length of the source
         let start = self.string_literals_buffer.len() as u32;
+        #[cfg(sas_lexer_verif)]
+        {
+            crate::verif::emit(crate::verif::Event::AddStrLit {
+                len: literal.as_ref().len() as u32,
+                at: start,
+            });
+            self.verif_maybe_shrink();
+        }
         self.string_literals_buffer.push_str(literal.as_ref());
 
         (start, self.string_literals_buffer.len() as u32)
